@@ -106,6 +106,8 @@ class Frame:
         self.handlers = []            # exception type names caught around the current point
         self.break_envs = []
         self.cont_envs = []
+        self.param_live = set()       # parameters still bound to the caller's object (not re-assigned to a new one)
+        self.param_mutated = set()    # … of which some element was stored in place
 
 
 def _origin_val(name, **kw):
@@ -173,11 +175,13 @@ class Interp:
             fr.guards = list(saved.guards)
             fr.loops = list(saved.loops)
             fr.handlers = list(saved.handlers)
+        fr.param_live = set(params) | set(fn.kwonly)
         self.fr = fr
         try:
             status = self.run_body(fn.node.body)
         finally:
             self.fr = saved
+            self.last_frame = fr
         if status == RAISE and not fr.rets and not fr.yields and not fn.is_generator and saved is not None:
             raise AbruptRaise(fn.qual)
         if fn.is_generator:
@@ -422,6 +426,23 @@ class Interp:
             return True          # a strictly positive number is truthy
         return None
 
+    @staticmethod
+    def _rowsum_mask(out, op, l, r):
+        """`rowsum != 0` / `rowsum > 0` for the row totals of a NON-NEGATIVE array selects exactly the rows that are not all zero"""
+        rs = l.tag("rowsum_of")
+        if rs is None or not (r.known and r.const == 0):
+            return
+        term, sign = rs
+        kind = {"NotEq": "nonzero_rows", "Gt": "nonzero_rows", "Eq": "zero_rows", "LtE": "zero_rows"}.get(type(op).__name__)
+        if kind == "nonzero_rows":
+            # every all-zero row has total 0: the mask never selects one (for signed data it may drop more — that is not this facet)
+            out.tags["zero_row_mask_of"] = term
+            out.tags["zero_row_mask_inverted"] = True
+        if kind and sign in ("NONNEG", "POS"):
+            out.tags["row_mask"] = (kind, term)
+            out.tags["zero_row_mask_of"] = term
+            out.tags["zero_row_mask_inverted"] = kind == "nonzero_rows"
+
     def e_BoolOp(self, e):
         vals = [self.ev(x) for x in e.values]
         ts = [self.truth(v) for v in vals]
@@ -463,6 +484,11 @@ class Interp:
             r.fresh = "FRESH"
             if v.tag("zero_row_mask_of") is not None:
                 r.tags["zero_row_mask_inverted"] = not v.tag("zero_row_mask_inverted", False)
+            rm = v.tag("row_mask")
+            if rm is not None:
+                flip = {"zero_rows": "nonzero_rows", "nonzero_rows": "zero_rows", "rows_with_a_zero": "rows_without_zero",
+                        "rows_without_zero": "rows_with_a_zero"}
+                r.tags["row_mask"] = (flip[rm[0]], rm[1])
             return r
         if isinstance(e.op, ast.USub) and v.tag("cvx"):
             from .ext_models import cvx_expr
@@ -522,6 +548,7 @@ class Interp:
             self.qty_compare(e, l, r)
             self.elementwise_shape(e, out, l, r)
             out.tags["cmp"] = (type(op).__name__, l, r)
+            self._rowsum_mask(out, op, l, r)
             return out
         if isinstance(op, (ast.Lt, ast.LtE, ast.Gt, ast.GtE)):
             from .extern import _conc
@@ -535,6 +562,7 @@ class Interp:
             self.qty_compare(e, l, r)
             self.elementwise_shape(e, out, l, r)
             out.tags["cmp"] = (type(op).__name__, l, r)
+            self._rowsum_mask(out, op, l, r)
             return out
         if isinstance(op, (ast.In, ast.NotIn)):
             pos = isinstance(op, ast.In)
@@ -620,6 +648,9 @@ class Interp:
     def load_self(self, e):
         ctx = self.ctx
         attr = e.attr
+        if attr == "__dict__":
+            # the instance dictionary: writing into it is writing a field
+            return Val(data={"self.__dict__"}, term=("self", "__dict__"), tags={"kind": "dict", "self_dict": True, "notnone": True})
         if attr in ctx.selfenv:
             v = ctx.selfenv[attr]
             self.emit("self_load", e, attr=attr)
@@ -856,6 +887,7 @@ class Interp:
             pre(self, e, fn, args, kws)
         r = self.run_function(fn, args, kws, self_val=self_val, path=fr.path, depth=depth, call_node=e)
         r = r.with_ctrl(fr.ctrl[-1])
+        self._write_back(fn, e, getattr(self, "last_frame", None), bool(self_val is not None))
         post = self.ctx.spec.get("post", {}).get(fn.qual)
         if post is not None:
             r2 = post(self, e, fn, args, kws, r)
@@ -863,6 +895,36 @@ class Interp:
                 r = r2
         ev.d["result"] = r
         return r
+
+    def _write_back(self, fn, e, cf, bound_method):
+        """a callee that stores into one of its (array) parameters in place changes the caller's object: the abstract value of the
+        caller's variable / field passed in that position is replaced by the callee's final value of the parameter"""
+        if cf is None or cf.fn is not fn or not cf.param_mutated or not isinstance(e, ast.Call):
+            return
+        params = list(fn.params)
+        if fn.cls and params and params[0] == "self":
+            params = params[1:]
+        actual = {}
+        for i, a in enumerate(e.args):
+            if isinstance(a, ast.Starred):
+                break
+            if i < len(params):
+                actual[params[i]] = a
+        for k in e.keywords:
+            if k.arg is not None:
+                actual[k.arg] = k.value
+        fr = self.fr
+        for p in cf.param_mutated & cf.param_live:
+            a = actual.get(p)
+            nv = cf.env.get(p)
+            if a is None or nv is None:
+                continue
+            if isinstance(a, ast.Name) and a.id in fr.env:
+                fr.env[a.id] = nv.with_ctrl(fr.ctrl[-1])
+                if a.id in fr.param_live:
+                    fr.param_mutated.add(a.id)           # transitively: our own caller's object changed too
+            elif isinstance(a, ast.Attribute) and isinstance(a.value, ast.Name) and a.value.id == "self" and a.attr in self.ctx.selfenv:
+                self.ctx.selfenv[a.attr] = nv.with_ctrl(fr.ctrl[-1])
 
     # ================================================================ statements
     def run_body(self, body):
@@ -1182,6 +1244,15 @@ class Interp:
         fr = self.fr
         c = fr.ctrl[-1]
         if isinstance(t, ast.Name):
+            if t.id in fr.param_live and not aug:
+                old = fr.env.get(t.id)
+                # `x = np.asarray(x)` / `x = np.atleast_2d(x)` may still be the caller's object; anything FRESH is a new one
+                same = old is not None and isinstance(v.fresh, tuple) and isinstance(old.fresh, tuple) and (v.fresh[1] & old.fresh[1])
+                if not same and not (old is not None and old.fresh == "FRESH" and v.term is not None and old.term is not None
+                                     and v.tag("view_of") == old.term):
+                    fr.param_live.discard(t.id)
+            if aug and t.id in fr.param_live and v.tag("kind") != "int" and not v.tag("isnum"):
+                fr.param_mutated.add(t.id)               # `x -= y` on an array parameter updates the caller's object
             fr.env[t.id] = v.with_ctrl(c) if c else v
             return
         if isinstance(t, (ast.Tuple, ast.List)):
@@ -1307,6 +1378,8 @@ class Interp:
                     and cmp_[1].term == base.term and v.tag("extconst") == "numpy.nan":
                 nb.tags["pos_or_nan"] = True        # x[x <= 0] = nan : only positive multiples survive
                 nb.sign = "POS"
+            if isinstance(t.value, ast.Name) and t.value.id in fr.param_live:
+                fr.param_mutated.add(t.value.id)
             nb.tags.pop("raw_quotient_by", None)         # some entries were overwritten: no longer the raw quotient
             nb.tags.pop("affine_grid", None)
             nb.term = mk_term("stored", base.term, f.term)
@@ -1321,6 +1394,9 @@ class Interp:
         fr = self.fr
         if base.tag("module_const"):
             self.emit("global_mutation", node, name=base.tag("module_const"), how="item store")
+        if base.tag("self_dict") or base.tag("self_dict_member"):
+            self.emit("self_store", node, attr=(idx.const if (idx.known and isinstance(idx.const, str) and base.tag("self_dict")) else
+                                                base.tag("self_dict_member") or "__dict__[…]"), val=v)
         nb = base.copy()
         kw = dict(nb.tag("kw") or {})
         if idx.known and isinstance(idx.const, str) and nb.tag("kw") is not None:
